@@ -142,6 +142,48 @@ def _ring_identity(goal, hyps):
     return True
 
 
+def _ite_conditions(goal, limit=4):
+    conds, seen = {}, set()
+    stack = [goal]
+    while stack:
+        x = stack.pop()
+        i = x.get_id()
+        if i in seen:
+            continue
+        seen.add(i)
+        if z3.is_app(x):
+            if x.decl().kind() == z3.Z3_OP_ITE:
+                c = x.arg(0)
+                conds.setdefault(c.get_id(), c)
+            stack.extend(x.children())
+    cs = list(conds.values())
+    # prefer the outermost / smallest conditions
+    cs.sort(key=lambda c: len(c.sexpr()))
+    return cs[:limit] if len(cs) <= 6 else None
+
+
+def _by_cases(goal, hyps, opts):
+    conds = _ite_conditions(goal)
+    if not conds:
+        return False
+    import itertools
+    for assign in itertools.product([True, False], repeat=len(conds)):
+        lits = [c if v else z3.Not(c) for c, v in zip(conds, assign)]
+        st, _ = check_sat(list(hyps) + lits, timeout_ms=3000)
+        if st == "unsat":
+            continue  # infeasible case
+        g = z3.simplify(z3.substitute(goal, *[(c, z3.BoolVal(v)) for c, v in zip(conds, assign)]))
+        if z3.is_true(g):
+            continue
+        h2 = list(hyps) + lits
+        if _ring_identity(g, h2):
+            continue
+        st, _ = check_sat(h2 + [z3.Not(g)], timeout_ms=8000, axiom_opts=opts)
+        if st != "unsat":
+            return False
+    return True
+
+
 def model_to_dict(m, limit=60):
     out = {}
     if m is None:
@@ -247,7 +289,15 @@ class Engine:
             st = "unsat"
             ob.backend = "ring-normaliser (symjnp.poly) + z3 %s for non-zero side conditions" % z3.get_version_string()
         if st is None:
-            st, m = check_sat(hy + [z3.Not(goal)], want_model=True, axiom_opts=opts)
+            st, m = check_sat(hy + [z3.Not(goal)], want_model=True, axiom_opts=opts,
+                              timeout_ms=(TIMEOUT_MS if kind not in ("ensures", "invariant", "lemma") else min(TIMEOUT_MS, 6000)))
+            if st == "unknown" and kind in ("ensures", "invariant", "lemma"):
+                # case analysis on the guards (ite conditions) of the goal, each case by normaliser / z3
+                if _by_cases(goal, hy, opts):
+                    st = "unsat"
+                    ob.backend = "case split on guards; ring-normaliser / z3 %s per case" % z3.get_version_string()
+                else:
+                    st, m = check_sat(hy + [z3.Not(goal)], want_model=True, axiom_opts=opts)
         ob.time_s = time.time() - t0
         if st == "unsat":
             ob.status = "discharged"
